@@ -342,9 +342,12 @@ def c06(ctx):
     # the same under non-default limit settings (0 = "unlimited" / "use the hard maximum", and small limits): whatever
     # the parser decides, it decides the same for every segmentation
     for cfgkw in ({"limit_request_fields": 0}, {"limit_request_field_size": 0}, {"limit_request_line": 0},
-                  {"limit_request_fields": 3, "limit_request_field_size": 40, "limit_request_line": 60}):
+                  {"limit_request_fields": 3, "limit_request_field_size": 40, "limit_request_line": 60},
+                  # PROXY protocol on, the peer (127.0.0.1) allowed / not allowed to use it
+                  {"proxy_protocol": True, "proxy_allow_ips": "10.9.8.7"}, {"proxy_protocol": True, "proxy_allow_ips": "*"},
+                  {"proxy_protocol": True, "proxy_allow_ips": "10.9.8.7", "limit_request_line": 20}):
         cfgv = drv.make_cfg(**cfgkw)
-        for f in ("heads1", "pipeline", "chunks"):
+        for f in (("proxy",) if "proxy_protocol" in cfgkw else ("heads1", "pipeline", "chunks")):
             cases = emit_cases(f)
             cases = rng.sample(cases, min(len(cases), 25 if ctx.quick else 250))
             for ci, case in enumerate(cases):
@@ -387,6 +390,12 @@ def c06(ctx):
                              "digests": [x[:600] for x in list(digs.keys())[:3]], "kinds": ["%d observations" % len(digs)],
                              "exc": None, "cuts": "seg_set", "nseg": len(segsets)})
     ctx.coverage["worker_level_runs"] = nw
+    # real servers with real sockets and the real hubs (gthread is left out: its handling of pipelined requests is the
+    # recorded finding F25 of C13)
+    from props.reload_real import _parallel
+    for t, m in _parallel(["gevent", "sync"] if ctx.quick else ["gevent", "eventlet", "sync"], lambda a, i: real_segmentations(a)):
+        traces.append(t)
+        meta.append(m)
     real_scale_c06(ctx, traces, meta)
     verdicts, stats = tlc.validate_batch("HttpTrace", "HttpTrace.cfg", traces, name="HttpTrace_C06", chunk=4000)
     ctx.add_traces(len(traces), stats)
@@ -472,6 +481,62 @@ def real_scale_c06(ctx, traces, meta):
         meta.append({"family": "real-scale", "shape": name, "bytes": data[:100].decode("latin-1"),
                      "digests": [x[:400] for x in list(digs.keys())[:3]], "kinds": _kinds(digs), "exc": None,
                      "nseg": len(segsets), "cuts": "delims"})
+
+
+def real_segmentations(wk):
+    """real server (real sockets, real hub): three pipelined requests sent under several segmentations with pauses between
+    the segments; what comes back must be the same each time.  -> (trace, meta)"""
+    import threading
+    import time
+    from drivers import realproc as rp
+    reqs = [b"POST /echo HTTP/1.1\r\nHost: h\r\nContent-Length: 5\r\n\r\nhello",
+            b"GET /pid?2 HTTP/1.1\r\nHost: h\r\n\r\n",
+            b"GET /pid?3 HTTP/1.1\r\nHost: h\r\nConnection: close\r\n\r\n"]
+    data = b"".join(reqs)
+    a, b2 = len(reqs[0]), len(reqs[0]) + len(reqs[1])
+    segsets = {"whole": [], "head|body+rest": [a - 5], "per-request": [a, b2], "inside-2nd": [a + 7], "inside-3rd": [b2 + 9],
+               "bytes-of-2nd": list(range(a, b2))}
+    s = rp.Server(wk, workers=1, threads=2 if wk == "gthread" else None, args=["--keep-alive", "2"], name="c06")
+    out = {}
+    try:
+        s.start()
+        s.wait_booted(1)
+
+        def one(name, cuts):
+            c = s.connect(timeout=8)
+            try:
+                pts = [0] + cuts + [len(data)]
+                for x, y in zip(pts, pts[1:]):
+                    try:
+                        c.sendall(data[x:y])
+                    except OSError:
+                        break            # the server has answered and closed already (one request per connection)
+                    time.sleep(0.25 if len(cuts) < 10 else 0.01)
+                buf = b""
+                c.settimeout(6)
+                try:
+                    while True:
+                        d = c.recv(65536)
+                        if not d:
+                            break
+                        buf += d
+                except OSError:
+                    pass
+                out[name] = [int(x[:3]) for x in buf.split(b"HTTP/1.1 ")[1:] if x[:3].isdigit()]
+            finally:
+                c.close()
+        ths = [threading.Thread(target=one, args=(n, c)) for n, c in segsets.items()]
+        [t.start() for t in ths]
+        [t.join() for t in ths]
+    finally:
+        s.cleanup()
+    digs, ev = {}, []
+    for name in segsets:
+        d = json.dumps(out.get(name))
+        ev.append({"e": "seg", "dig": digs.setdefault(d, len(digs) + 1)})
+    return {"ms": [], "cut": 0, "mode": "read", "ev": ev}, \
+        {"family": "real", "shape": "real:" + wk, "bytes": data[:120].decode("latin-1"), "digests": list(digs)[:4],
+         "kinds": ["%s=%s" % (k, v) for k, v in sorted(out.items())], "exc": None, "cuts": "seg_set", "nseg": len(segsets)}
 
 
 def replay(ctx, data):
